@@ -1,5 +1,6 @@
 import IxpeVerif.RealInst
 import IxpeVerif.Model.Ephemeris
+import IxpeVerif.Gen.ImpR
 /-!
 # C17 — pulse phase and time are consistent for periodic sources
 
@@ -75,6 +76,40 @@ theorem tail_share (N P f : ℝ) (hP : 0 < P) (hf : 0 < f) :
 /-- regression witness of the repaired defect: the former share N·rem/Δφ is only right when cdf(rem) = rem -/
 theorem tail_share_old_fails : ∃ N P r f : ℝ, 0 < P ∧ 0 < f ∧ (N - N * r / (P + r)) / P ≠ (N * r / (P + r)) / f := by
   refine ⟨7, 3, 1/2, 1/100, by norm_num, by norm_num, by norm_num⟩
+
+/-! ### T-tie of the methods: `_dt`, `nu`, `nudot`, `met_to_phase`, `fold` regenerated with their calls to each other (`Gen/ImpR.lean`) -/
+
+/-- the generated `met_to_phase` (which calls the generated `_dt`) is the Taylor phase of the model -/
+theorem gen_met_to_phase_eq_model (met0 nu0 nud nudd t : ℝ) :
+    Gen.ImpR.ephemeris_met_to_phase met0 nu0 nud nudd t = phaseAt met0 nu0 nud nudd t := by
+  simp only [Gen.ImpR.ephemeris_met_to_phase, Gen.ImpR.ephemeris_dt, phaseAt, Gen.eph_met_to_phase]
+
+/-- **the generated `fold` is the model**: re-reference at `start_met` through the generated `nu`, `nudot`, evaluate the generated `met_to_phase`
+of the re-referenced ephemeris, add the offset, take the value modulo one -/
+theorem gen_fold_eq_model (met0 nu0 nud nudd met start phi0 : ℝ) :
+    Gen.ImpR.ephemeris_fold met0 nu0 nud nudd met start phi0 = fold met0 nu0 nud nudd met start phi0 := by
+  simp only [Gen.ImpR.ephemeris_fold, Gen.ImpR.ephemeris_met_to_phase, Gen.ImpR.ephemeris_nu, Gen.ImpR.ephemeris_nudot, Gen.ImpR.ephemeris_dt, fold,
+    Gen.eph_met_to_phase, Gen.eph_nu, Gen.eph_nudot]
+  rl_simp
+  have e1 : (1.0:ℝ) = 1 := by norm_num
+  simp only [e1, div_one, mul_one]
+
+/-- the headline statements on the current source: the fold is the fractional part of φ(t) − φ(start) + φ₀ for every epoch, lies in [0, 1) … -/
+theorem gen_fold_is_fract (met0 nu0 nud nudd met start phi0 : ℝ) :
+    Gen.ImpR.ephemeris_fold met0 nu0 nud nudd met start phi0
+      = Int.fract (Gen.ImpR.ephemeris_met_to_phase met0 nu0 nud nudd met - Gen.ImpR.ephemeris_met_to_phase met0 nu0 nud nudd start + phi0) := by
+  rw [gen_fold_eq_model, gen_met_to_phase_eq_model, gen_met_to_phase_eq_model]; exact fold_is_fract ..
+
+theorem gen_fold_range (met0 nu0 nud nudd met start phi0 : ℝ) :
+    0 ≤ Gen.ImpR.ephemeris_fold met0 nu0 nud nudd met start phi0 ∧ Gen.ImpR.ephemeris_fold met0 nu0 nud nudd met start phi0 < 1 := by
+  rw [gen_fold_eq_model]; exact fold_range ..
+
+/-- … and folding the times generated for a periodic source (any exact inverse of the generated phase) gives back the pulse phases -/
+theorem gen_rvs_fold_roundtrip (met0 nu0 nud nudd start psi : ℝ) (k : ℤ) (inv : ℝ → ℝ)
+    (h : ∀ p, Gen.ImpR.ephemeris_met_to_phase met0 nu0 nud nudd (inv p) = p) (h0 : 0 ≤ psi) (h1 : psi < 1) :
+    Gen.ImpR.ephemeris_fold met0 nu0 nud nudd (inv (Gen.ImpR.ephemeris_met_to_phase met0 nu0 nud nudd start + k + psi)) start 0 = psi := by
+  simp only [gen_fold_eq_model, gen_met_to_phase_eq_model] at h ⊢
+  exact rvs_fold_roundtrip met0 nu0 nud nudd start psi k inv h h0 h1
 
 /-- non-vacuity of the inverse hypothesis: a constant-frequency ephemeris has the exact inverse p ↦ met0 + p/ν₀ -/
 example (met0 nu0 : ℝ) (h : nu0 ≠ 0) : ∀ p, phaseAt met0 nu0 0 0 (met0 + p / nu0) = p := by
